@@ -346,7 +346,7 @@ C29RgeNsVerdict(c, o) ==
 OmeEntries2 == {"gg", "gq", "qg", "qq", "hg", "hq"}
 PlanC29Rge2 ==
   {[law |-> "OmeRge2", v |-> v, entry |-> en, k |-> 2, nf |-> nf, j |-> j] :
-     v \in {"us", "ps"}, en \in OmeEntries2, nf \in OmeNf, j \in Pts}
+     v \in {"us", "ps", "us-msbar"}, en \in OmeEntries2, nf \in OmeNf, j \in Pts}
 C29Rge2Verdict(c, o) ==
   Judge(o.e, IF Switch = "ome-exact" THEN -1700 ELSE -1100, "C29:rge2:" \o c.v \o ":" \o c.entry)
 PlanC29 == PlanC29Sum \cup PlanC29Rge \cup PlanC29RgeNs \cup PlanC29Rge2
